@@ -126,6 +126,31 @@ def oracle(case, out):
     for o, r in zip(case.get("orders", []), out.get("perm", [])):
         if r.get("ok") != out["ok"]:
             return {"what": f"result depends on the storage order of the statements (order {o})", "sig": "storage"}
+    # the loops around every leaf, outermost first, are the declared loops in the declared order (the first loop of
+    # the statement is the outermost one: the interpreter nests them that way, and an inner bound may use an outer index)
+    declared = {s["id"]: list(s.get("loops", [])) for s in case["stmts"]}
+
+    def nests(a, path, acc):
+        if a == "N" or not isinstance(a, list):
+            return
+        if a[0] == "L":
+            acc.append((a[1], list(path)))
+        elif a[0] == "T":
+            nests(a[2], path, acc)
+        elif a[0] == "I":
+            nests(a[2], path, acc)
+            nests(a[3], path, acc)
+        elif a[0] == "O":
+            nests(a[2], path + [a[1]], acc)
+        elif a[0] == "B":
+            for c in a[1]:
+                nests(c, path, acc)
+    found = []
+    nests(out["ok"], [], found)
+    for sid_, path in found:
+        if sid_ in declared and path != declared[sid_]:
+            return {"what": f"statement {sid_} sits inside the loops {path} (outermost first), declared {declared[sid_]}",
+                    "sig": "loop-nest"}
     for v in itertools.product([False, True], repeat=3):
         got = []
         try:
@@ -205,8 +230,9 @@ def cases(rng, tier):
                     yield {"op": "C05.lower", "tag": f"exh{n}", "stmts": stmts, "orders": orders(rng, n) if n > 1 else []}
     for _ in range(1500 if tier == "quick" else 30000):
         n = rng.randint(1, 10)
-        perm = list(range(n))
-        rng.shuffle(perm)
+        # ids from a pool of 100: whatever the hash seed of this process, some phases have root ids that collide in
+        # the small hash table of a set, and only then does the iteration order of a set depend on insertion order
+        perm = rng.sample(range(100), n)
         stmts = []
         for i in range(n):
             deps = rng.sample(range(i), rng.randint(0, min(3, i)))
@@ -218,7 +244,7 @@ def cases(rng, tier):
                 s["cond"] = c06.rand_cond(rng) if rng.random() < 0.6 else None
                 s["loops"] = rand_loops(rng)
             if rng.random() < 0.01:
-                s["deps"] = s["deps"] + [77]
+                s["deps"] = s["deps"] + [177]
             stmts.append(s)
         rng.shuffle(stmts)
         yield {"op": "C05.lower", "tag": "random", "stmts": stmts, "orders": orders(rng, n)}
